@@ -1359,6 +1359,11 @@ ares_status_t ares_dns_rr_set_opt_own(ares_dns_rr_t    *dns_rr,
     return ARES_EFORMERR;
   }
 
+  /* A length without a value can't be written */
+  if (val == NULL && val_len != 0) {
+    return ARES_EFORMERR;
+  }
+
   options = ares_dns_rr_data_ptr(dns_rr, key, NULL);
   if (options == NULL) {
     return ARES_EFORMERR;
